@@ -637,8 +637,9 @@ class Madgwick:
                               [ 0.0,    -4.0*qx, -4.0*qy, 0.0   ]])
                 # Objective Function Gradient
                 gradient = J.T@f                                    # (eq. 34)
-                gradient /= np.linalg.norm(gradient)
-                qDot -= (self.gain_imu if self._default_gain else self.gain)*gradient   # (eq. 33)
+                gradient_norm = np.linalg.norm(gradient)
+                if gradient_norm > 0:                               # The gradient vanishes at a stationary point (e.g. estimate exactly opposite to the measured gravity)
+                    qDot -= (self.gain_imu if self._default_gain else self.gain)*gradient/gradient_norm   # (eq. 33)
         q_new = q + qDot*dt                                         # (eq. 13)
         q_new /= np.linalg.norm(q_new)
         return q_new
@@ -726,8 +727,9 @@ class Madgwick:
                               [-2.0*bx*qz+2.0*bz*qx,  2.0*bx*qy+2.0*bz*qw,  2.0*bx*qx+2.0*bz*qz, -2.0*bx*qw+2.0*bz*qy],
                               [ 2.0*bx*qy,            2.0*bx*qz-4.0*bz*qx,  2.0*bx*qw-4.0*bz*qy,  2.0*bx*qx          ]])
                 gradient = J.T@f                                    # (eq. 34)
-                gradient /= np.linalg.norm(gradient)
-                qDot -= (self.gain_marg if self._default_gain else self.gain)*gradient  # (eq. 33)
+                gradient_norm = np.linalg.norm(gradient)
+                if gradient_norm > 0:                               # The gradient vanishes at a stationary point (e.g. estimate exactly opposite to the measured gravity)
+                    qDot -= (self.gain_marg if self._default_gain else self.gain)*gradient/gradient_norm  # (eq. 33)
         q_new = q + qDot*dt                                         # (eq. 13)
         q_new /= np.linalg.norm(q_new)
         return q_new
